@@ -19,7 +19,7 @@ import (
 	"verif/internal/tmpl"
 )
 
-func init() { Registry["C06"] = checkC06 }
+func init() { Registry["C06"] = withErrRules(checkC06, "", "gen", "internal/goast") }
 
 var reElemName = regexp.MustCompile(`^ƒ(\w+?)ʃ(ε\d+[\pL\pN_ˑ]*?)(ˑName)?$`)
 
@@ -165,6 +165,7 @@ func checkC06(c *core.Ctx, l *core.Ledger) {
 	checkMethodReserve(c, l, mod)
 	checkZapCast(c, l)
 	checkFreshClaim(c, l, "FRESH-CLAIM", []string{"gen", "plugin"}, 3)
+	checkNamespaceChain(c, l, "NS-CHAIN")
 
 	// PANIC-DEFAULT
 	checkSwitchPanics(c, l, "PANIC-DEFAULT", []string{"gen"})
